@@ -54,6 +54,7 @@ of every reported segment; neutrons in the band stay undecided.
 from __future__ import annotations
 
 import os
+from types import SimpleNamespace
 
 import numpy as np
 import scipp as sc
@@ -104,6 +105,14 @@ RULE = (
     'distances with N = 1, 2, number of vertices of the subframe -1 / +0 / +1; in 4 shards the first call '
     '(from_source_pulse / propagate_times / Frame.chop) in a fresh interpreter that imported only scipp, numpy and '
     'the module, compared bit for bit with the same calls in the worker. '
+    'Then 1 cascade with ARRAYS of distances where a distance is documented (2-3 cutting choppers): '
+    'sequence[distances] with entries on both sides of every chopper, around the last chopper only, all behind '
+    'the last one, unsorted (smallest entry neither first nor always last), of length 1 and 2, two-dimensional '
+    '(2x2, 1x3), in mm / cm, in sequences that hold propagated frames (detector behind, monitor between the '
+    'choppers) -- a refusal is counted, an ANSWER is judged entry by entry by the simulator with the choppers '
+    'at <= that entry, and every entry is also looked up alone; Frame.propagate_to / FrameSequence.propagate_to '
+    'with 1-d (sorted, unsorted, length 1, other unit, entries in front of and behind the frame) and 2-d arrays: '
+    'shear and transmission per entry. '
     'Every returned frame is judged with ~2000-4000 simulated neutrons; distinct = distinct (number of '
     'choppers, window classes, program shape, units, equal / near / ulp / source / behind / backward flags) '
     'signatures (+ pulse class); a cascade without choppers and without propagation is trivial'
@@ -149,6 +158,10 @@ ASSUMPTIONS = [
     'and not judged, and not generated; FrameSequence.propagate_to distances of sequences that are looked up are '
     'given in metres (the lookup compares frame distances with the requested one in m: other units make it '
     'raise UnitError; units are not part of the property)',
+    'arrays of distances: sequence[distance] is documented for a distance; a lookup by an array that raises '
+    '(any exception) is a counted refusal, never a violation; one that returns must hold, along the dims of the '
+    'requested array, one polygon set per entry. Frame.propagate_to / FrameSequence.propagate_to with arrays must '
+    'work (propagate_times documents a range of distances)',
     'fresh interpreter: the subprocess runs sys.executable with the sys.path of the worker; a subprocess that '
     'cannot import scipp / numpy is inconclusive, never a violation',
 ]
@@ -202,6 +215,15 @@ FORCED = ['window:' + c for c in WINDOW_CLASSES] + ['window:zero_width'] + [
     'alias:frame_calls_probed', 'alias:sequence_calls_probed', 'alias:bounds_results_written',
     'inplace:lookup_distance_advanced', 'inplace:propagate_distance_advanced', 'inplace:chopper_fields_advanced',
     'inplace:pulse_arguments_changed', 'size:distance_range_as_long_as_the_vertex_axis', 'fresh_interpreter',
+    'lookup_by_array:straddling_all_choppers', 'lookup_by_array:straddling_the_last_chopper',
+    'lookup_by_array:all_behind_the_last_chopper', 'lookup_by_array:unsorted', 'lookup_by_array:length_1',
+    'lookup_by_array:length_2', 'lookup_by_array:two_dimensional', 'lookup_by_array:other_unit',
+    'lookup_by_array:sequence_with_propagated_frames',
+    'propagate_to_array:Frame:two_dimensional', 'propagate_to_array:Frame:straddling_later_choppers',
+    'propagate_to_array:Frame:unsorted', 'propagate_to_array:Frame:length_1', 'propagate_to_array:Frame:other_unit',
+    'propagate_to_array:Frame:in_front_of_and_behind_the_frame', 'propagate_to_array:FrameSequence:one_dimensional',
+    'propagate_to_array:FrameSequence:two_dimensional', 'propagate_to_array:FrameSequence:unsorted',
+    'propagate_to_array:FrameSequence:length_1',
 ]
 
 
@@ -247,7 +269,7 @@ def _describe(pulse, hist, dist):
         'choppers': [{'distance_m': repr(float(c.distance)),
                       'open_s': [repr(float(x)) for x in c.t_open],
                       'close_s': [repr(float(x)) for x in c.t_close]} for c in hist],
-        'frame_distance_m': [repr(float(x)) for x in np.atleast_1d(dist)],
+        'frame_distance_m': [repr(float(x)) for x in np.ravel(dist)],
     }
 
 
@@ -495,6 +517,9 @@ class Monitors:
             if np.ndim(g.dist) != 0:
                 ctx.count('propagate_from_distance_range:not_judged')
                 return
+            if np.ndim(dist) >= 2:
+                self.on_propagate_nd(ev, me, g, dist)
+                return
             old = _polys(me)
             delta = np.atleast_1d(dist) - g.dist
             # reference shear in long double, 64 eps forward bound
@@ -552,6 +577,59 @@ class Monitors:
                 self.judge_frame(res, g.pulse, g.hist, dist, 'propagate_to')
         except Exception:  # noqa: BLE001
             ctx.oracle_error('C11 on_propagate')
+
+    def on_propagate_nd(self, ev, me, g, dist):
+        """Frame.propagate_to with an array of distances of two or more dimensions (one distance per pixel
+        of a detector bank): the answer holds, entry by entry, the frame sheared to that distance."""
+        ctx = self.ctx
+        res = ev.result
+        ddims = tuple(ev.args['distance'].dims)
+        flat = dist.ravel()
+        case = _describe(g.pulse, g.hist, flat)
+        case.update({'from_distance_m': repr(float(g.dist)), 'distance_dims': list(ddims),
+                     'distance_shape': list(dist.shape)})
+        old = _polys(me)
+        views = _entry_views(res, ddims, dist.shape)
+        ctx.event('shear')
+        ctx.event('shear:distances_of_two_or_more_dimensions')
+        ok = views is not None and len(res.subframes) == len(me.subframes)
+        worst = 0.0
+        if ok:
+            for k, view in enumerate(views):
+                for (t0, w0), sub in zip(old, view.subframes, strict=True):
+                    t1 = _in(sub.time, 's')
+                    w1 = _in(sub.wavelength, 'angstrom')
+                    if t1.shape != t0.shape or not np.array_equal(w1, w0):
+                        ok = False
+                        break
+                    exp = t0 + (flat[k] - g.dist) * ts.alpha() * w0
+                    bound = 64 * EPS * (np.abs(t0) + (abs(flat[k]) + abs(g.dist)) * ts.alpha() * w0)
+                    with np.errstate(divide='ignore', invalid='ignore'):
+                        r = np.where(bound > 0, np.abs(t1 - exp) / bound, np.where(t1 == exp, 0, np.inf))
+                    if r.size:
+                        worst = max(worst, float(np.max(r)))
+                if not ok:
+                    break
+        if not ok:
+            ctx.violation('propagate_changed_shape', 'propagate_to(array of distances) changed wavelengths, vertex '
+                          'or subframe count, or the times are not laid out entry by entry', case)
+            return
+        ctx.dev('shear_error[units of the 64 eps bound]', worst)
+        if worst > 1.0:
+            ctx.violation('shear', f'propagate_to: vertex time off by {worst:.3g} x (64 eps bound) from '
+                          't + (d_new - d_old) lambda m_n/h', case, monitor='shear')
+        rd = _in(res.distance, 'm')
+        if rd.shape != dist.shape or np.any(rd != dist):
+            ctx.violation('frame_distance', 'propagate_to result does not carry the requested distance', case)
+        forward = bool(np.all(flat >= g.dist))
+        if not forward:
+            ctx.hit('backward_propagation')
+        root = g.root if g.via_prop else id(me)
+        mx = max(g.maxabs_t, _maxabs(_polys_flat(res)))
+        self.ghost[id(res)] = Ghost(res, g.pulse, g.hist, g.monotone and forward, dist, root, True, mx, g.ids)
+        ctx.hit('distance_range_propagation')
+        for k, view in enumerate(views):
+            self.judge_frame(view, g.pulse, g.hist, LD(flat[k]), 'propagate_to')
 
     def judge_same_target(self, ng):
         """Frames reached from the same frame by propagate_to chains ending at the same
@@ -986,7 +1064,12 @@ class Monitors:
             ctx.count('untracked_frame:getitem')
             return
         try:
-            d = _scalar(item, 'm')
+            dd = _in(item, 'm')
+            if dd.size == 0:
+                ctx.count('getitem:no_distance_requested:not_judged')
+                return
+            # (an array of distances: the preconditions are those of its smallest entry)
+            d = LD(dd.min())
             ds = [x.dist for x in gs]
             if any(np.ndim(x) for x in ds) or d < ds[0]:
                 ctx.count('getitem:unsorted_sequence_not_judged')
@@ -1005,6 +1088,9 @@ class Monitors:
             full = max(gs, key=lambda x: len(x.hist)).hist
             if any(x.hist != full[:len(x.hist)] for x in gs):
                 ctx.count('getitem:frames_of_different_cascades:not_judged')
+                return
+            if dd.ndim > 0:
+                self.getitem_array(ev, gs, full, item, dd)
                 return
             if any(abs(c.distance - d) <= BAND * d for c in full):
                 ctx.count('undecided:getitem_at_chopper_distance')
@@ -1027,6 +1113,42 @@ class Monitors:
             self.judge_frame(ev.result, gs[0].pulse, hist, d, 'getitem')
         except Exception:  # noqa: BLE001
             ctx.oracle_error('C11 on_getitem')
+
+    def getitem_array(self, ev, gs, full, item, dd):
+        """sequence[distances] with an ARRAY of distances (one per monitor / detector pixel; any number of
+        dimensions, any order, any length).  The lookup is documented for a distance; a refusal (any
+        exception) is counted.  An ANSWER is judged entry by entry exactly like the lookup of that entry
+        alone: the polygons at entry k are the neutrons behind the choppers at <= distance k."""
+        ctx = self.ctx
+        ctx.event('getitem:array_of_distances')
+        if ev.exc is not None:
+            ctx.count('refused:lookup_by_array_of_distances')
+            ctx.count('refused:lookup_by_array_of_distances:' + type(ev.exc).__name__)
+            return
+        ctx.event('getitem:array_of_distances:answered')
+        res = ev.result
+        flat = dd.ravel()
+        case = _describe(gs[0].pulse, full, flat)
+        case.update({'program': self.program, 'distance_dims': list(item.dims), 'distance_shape': list(dd.shape)})
+        views = _entry_views(res, tuple(item.dims), dd.shape) if hasattr(res, 'subframes') else None
+        if views is None:
+            ctx.violation('getitem_array_structure', 'sequence[array of distances] returned something that does not '
+                          'hold one set of polygons per requested distance', case)
+            return
+        rd = _in(res.distance, 'm')
+        # (bitwise when no unit conversion is involved, else up to the rounding of the conversion)
+        slack = 0 if res.distance.unit == item.unit else 4 * EPS
+        if rd.shape != dd.shape or np.any(np.abs(rd - dd) > slack * np.abs(dd)):
+            ctx.violation('frame_distance', 'sequence[array of distances]: the result does not carry the requested '
+                          'distances', case)
+        for k, view in enumerate(views):
+            d = LD(flat[k])
+            if any(abs(c.distance - d) <= BAND * d for c in full):
+                ctx.count('undecided:getitem_at_chopper_distance')
+                continue
+            hist = tuple(c for c in full if c.distance <= d)
+            ctx.event('getitem:array_of_distances:entry')
+            self.judge_frame(view, gs[0].pulse, hist, d, 'getitem:array_of_distances')
 
     # -- harness-driven comparison of two chop orders ----------------------------------------------
     def judge_permutation(self, seq_a, seq_b, n0, cond, kind='order_dependence',
@@ -1220,6 +1342,26 @@ def _polys_flat(frame):
     out = []
     for sub in frame.subframes:
         out.append((_in(sub.time, 's').ravel(), _in(sub.wavelength, 'angstrom')))
+    return out
+
+
+def _entry_views(frame, ddims, shape):
+    """A frame that holds one polygon set per entry of an array of distances (dims ``ddims``, any number of
+    them), as one view per entry (C order): objects with .subframes[k].time (1-d, along the vertex axis)
+    and .wavelength.  None when a subframe's times are not laid out entry by entry."""
+    out = []
+    for idx in np.ndindex(*shape):
+        subs = []
+        for sub in frame.subframes:
+            t = sub.time
+            if any(d not in t.dims or t.sizes[d] != n for d, n in zip(ddims, shape, strict=True)):
+                return None
+            for d, i in zip(ddims, idx, strict=True):
+                t = t[d, int(i)]
+            if t.dims != sub.wavelength.dims:
+                return None
+            subs.append(SimpleNamespace(time=t, wavelength=sub.wavelength))
+        out.append(SimpleNamespace(subframes=subs))
     return out
 
 
@@ -1989,6 +2131,113 @@ def run_nonmonotone(cc, mon, ctx, rng, forced):
     return ('non_monotonic', n_ch, unit, tuple(classes), len(seq[-1].subframes) > 0), False
 
 
+# ------------------------------------------------- arrays of distances where a distance is documented ---
+ARRAY_LOOKUP_CLASSES = ['straddling_all_choppers', 'straddling_the_last_chopper', 'all_behind_the_last_chopper',
+                        'unsorted', 'length_1', 'length_2', 'two_dimensional', 'other_unit',
+                        'sequence_with_propagated_frames']
+ARRAY_PROPAGATE_CLASSES = ['Frame:two_dimensional', 'Frame:straddling_later_choppers', 'Frame:unsorted',
+                           'Frame:length_1', 'Frame:other_unit', 'Frame:in_front_of_and_behind_the_frame',
+                           'FrameSequence:one_dimensional', 'FrameSequence:two_dimensional',
+                           'FrameSequence:unsorted', 'FrameSequence:length_1']
+
+
+def run_arrays(cc, mon, ctx, rng, forced):
+    """ARRAYS of distances (one per monitor / detector pixel) where the documentation speaks of a distance:
+    sequence[distances], FrameSequence.propagate_to(distances), Frame.propagate_to(distances) -- entries on
+    both sides of choppers, all behind the last one, unsorted, of length 1 and 2, two-dimensional, in
+    another unit.  A lookup may be refused (counted); whatever is ANSWERED is judged entry by entry by the
+    simulator with the choppers at <= that entry's distance (lookup) / with the choppers the propagated frame
+    went through (propagate_to), and every entry is looked up alone as well."""
+    prog = mon.program
+    u = rng.uniform
+    seq0, _, fb = _source(cc, mon, rng)
+    if mon.g(seq0.frames[0]) is None:
+        return None
+    n_ch = 2 + int(rng.integers(0, 2))
+    unit = 'm' if rng.random() < 0.6 else D_UNITS[int(rng.integers(0, 3))]
+    classes = [['cuts_both', 'cuts_high', 'cuts_low'], ['cuts_low', 'cuts_both', 'cuts_high'],
+               ['cuts_high', 'cuts_both', 'cuts_both']][int(rng.integers(0, 3))]
+    choppers, _ = _cascade(cc, mon, ctx, rng, seq0, fb, n_ch, unit, classes, gap=(4.0, 25.0))
+    ds = [float(_scalar(c.distance, 'm')) for c in choppers]
+    seq = seq0.chop(list(choppers))
+    far = ds[-1] + float(u(8.0, 40.0))
+    seq_d = seq.propagate_to(_dist_var(rng, far, 'm'))
+    front = float(u(0.05, ds[0] - 0.05))
+    between = [float(u(ds[k] + 0.05, ds[k + 1] - 0.05)) for k in range(n_ch - 1)]
+    behind = sorted(float(x) for x in u(ds[-1] + 0.05, far - 0.05, size=2))
+    beyond = far + float(u(0.5, 20.0))
+    dim_names = ['distance', 'detector_number', 'pixel', 'x']
+
+    def arr(xs, dims=None, dunit='m'):
+        a = np.asarray(xs, dtype=float)
+        if dims is None:
+            dims = [dim_names[int(rng.integers(0, len(dim_names)))]] if a.ndim == 1 else ['row', 'column'][:a.ndim]
+        f = float(si.lookup(sc.Unit(dunit))[0])
+        return sc.array(dims=dims, values=a / f, unit=dunit)
+
+    def look(s, var, cls):
+        """The array lookup, then every entry alone (same float64 value, same unit)."""
+        prog.append(['sequence[array of distances] (' + cls + ')', list(var.dims), repr(var.values.tolist()),
+                     str(var.unit)])
+        try:
+            s[var.copy()]
+        except Exception:  # noqa: BLE001,S110  (a refusal: counted by the monitor)
+            pass
+        for x in var.values.ravel():
+            try:
+                s[sc.scalar(float(x), unit=var.unit)]
+            except Exception:  # noqa: BLE001,S110  (judged by the monitor)
+                pass
+        ctx.hit('lookup_by_array:' + cls)
+
+    everywhere = [front, *between, behind[0], beyond]
+    look(seq, arr(everywhere), 'straddling_all_choppers')
+    look(seq, arr([between[-1], behind[1]]), 'straddling_the_last_chopper')
+    look(seq, arr([behind[0], behind[1], beyond]), 'all_behind_the_last_chopper')
+    perm = [everywhere[i] for i in rng.permutation(len(everywhere))]
+    if perm[0] == min(perm):
+        perm = perm[::-1]  # (neither the first nor the last entry is special: both orders occur over the shards)
+    look(seq, arr(perm), 'unsorted')
+    look(seq, arr([beyond, front]), 'length_2')
+    for x in (front, between[0], behind[0]):
+        look(seq, arr([x]), 'length_1')
+    grid = [[front, behind[1]], [between[0], beyond]] if rng.random() < 0.5 else \
+        [[beyond, between[-1]], [behind[0], front]]
+    look(seq, arr(grid), 'two_dimensional')
+    look(seq, arr([[behind[0], behind[1], beyond]]), 'two_dimensional')
+    look(seq, arr(everywhere, dunit=['mm', 'cm'][int(rng.integers(0, 2))]), 'other_unit')
+    # the sequence holds propagated frames as well (detector behind the choppers; a monitor between two)
+    look(seq_d, arr([between[0], behind[0], beyond]), 'sequence_with_propagated_frames')
+    seq_m = seq.propagate_to(sc.scalar(between[0], unit='m'))
+    look(seq_m, arr([beyond, front, between[0] + 0.01]), 'sequence_with_propagated_frames')
+
+    # propagate_to with arrays: the frame behind the first chopper / the last frame of the sequence
+    def prop(obj, var, cls, bounds=True):
+        prog.append([cls.split(':')[0] + '.propagate_to(array of distances)', list(var.dims),
+                     repr(var.values.tolist()), str(var.unit)])
+        out = obj.propagate_to(var)
+        if bounds:
+            _bounds_of(out[-1] if isinstance(out, cc.FrameSequence) else out)
+        ctx.hit('propagate_to_array:' + cls)
+        return out
+
+    f1 = seq[1]
+    d1 = ds[0]
+    later = [d1 + 0.05, *between, behind[0], beyond]
+    prop(f1, arr([[later[0], later[-1]], [later[1], later[-2]]]), 'Frame:two_dimensional', bounds=False)
+    prop(f1, arr([[x] for x in later[:3]]), 'Frame:two_dimensional', bounds=False)
+    prop(f1, arr(later), 'Frame:straddling_later_choppers')
+    prop(f1, arr(later[::-1]), 'Frame:unsorted')
+    prop(f1, arr([later[1]]), 'Frame:length_1')
+    prop(f1, arr(later, dunit=['mm', 'cm'][int(rng.integers(0, 2))]), 'Frame:other_unit')
+    prop(f1, arr([front, later[1]]), 'Frame:in_front_of_and_behind_the_frame')
+    prop(seq, arr([behind[0], behind[1], beyond]), 'FrameSequence:one_dimensional')
+    prop(seq, arr([[behind[0], beyond], [behind[1], far]]), 'FrameSequence:two_dimensional', bounds=False)
+    prop(seq, arr([beyond, behind[0], far]), 'FrameSequence:unsorted')
+    prop(seq, arr([behind[1]]), 'FrameSequence:length_1')
+    return ('arrays_of_distances', n_ch, unit, tuple(classes), len(seq[-1].subframes) > 0), False
+
+
 # ------------------------------------------- aliasing of results and arguments (write and check) ---
 def _poke(v, arr):
     if v.ndim == 0:
@@ -2428,6 +2677,7 @@ def requirements(tier):
           'alias_probe:FrameSequence.chop': 16, 'alias_probe:FrameSequence.propagate_to': 16,
           'alias_probe:sequence[distance]': 32, 'earlier_frame_rechecked': 300,
           'repeated_call_after_overwriting_the_result': 100,
+          'getitem:array_of_distances': 150, 'shear:distances_of_two_or_more_dimensions': 40,
           **{'fresh_interpreter:' + w: 1 for w in FRESH_FIRST_CALLS}}
     return {'events': ev, 'forced': FORCED,
             'counters': {'neutrons_decided': 200000, 'neutrons_decided_transmitted': 5000,
@@ -2478,6 +2728,8 @@ _FORCED_PLAN = [
     # aliasing of results and arguments, in-place modification between two calls, coinciding sizes, first
     # call in a fresh interpreter
     {'alias': True},
+    # arrays of distances where a distance is documented: sequence[distances], propagate_to(distances)
+    {'arrays': True},
 ]
 
 
@@ -2514,6 +2766,8 @@ def run(shard, ctx):
                 forced = {'nonmonotone': True}
             if k >= 25 and k % 25 == 22:
                 forced = {'alias': True}
+            if k >= 25 and k % 25 == 21:
+                forced = {'arrays': True}
             if forced.get('alias'):
                 forced['variant'] = int(shard['seed']) + int(shard['index']) + k
                 if k < len(_FORCED_PLAN) and int(shard['index']) < 4:
@@ -2529,7 +2783,8 @@ def run(shard, ctx):
             out = None
             try:
                 out = (run_mutable if forced.get('mutable') else run_nonmonotone if forced.get('nonmonotone')
-                       else run_alias if forced.get('alias') else run_cascade)(cc, mon, ctx, rng, forced)
+                       else run_alias if forced.get('alias') else run_arrays if forced.get('arrays')
+                       else run_cascade)(cc, mon, ctx, rng, forced)
             except Exception as e:  # noqa: BLE001
                 # exceptions of the code under test were already judged by the monitor of the call
                 # that raised (PY_UNWIND); anything else is a harness problem
